@@ -239,13 +239,21 @@ func c10Sanitize(r *core.Run, p *core.Prog) {
 	}
 	info := f.Info()
 	g := core.GraphOf(f)
+	// the loop over the table: either a range over the package-level map itself, or a range over a package-level list of
+	// its keys (the fixed order of application) with the entry looked up in the map
 	var outer *ast.RangeStmt
+	overKeys := false
 	core.Walk(f.Decl.Body, false, func(x ast.Node) bool {
 		if rs, ok := x.(*ast.RangeStmt); ok && outer == nil {
-			if _, isMap := info.TypeOf(rs.X).Underlying().(*types.Map); isMap {
-				if v, isVar := core.ObjOf(info, rs.X).(*types.Var); isVar && v.Parent() == v.Pkg().Scope() {
-					outer = rs
-				}
+			v, isVar := core.ObjOf(info, rs.X).(*types.Var)
+			if !isVar || v.Parent() != v.Pkg().Scope() {
+				return true
+			}
+			switch info.TypeOf(rs.X).Underlying().(type) {
+			case *types.Map:
+				outer = rs
+			case *types.Slice:
+				outer, overKeys = rs, true
 			}
 		}
 		return true
@@ -268,11 +276,30 @@ func c10Sanitize(r *core.Run, p *core.Prog) {
 	r.Check(rule, "SanitizeUserInput:no-return-before-the-table", p.Rel(f.Decl.Pos()), bad == "", bad)
 	// inside: text = re.ReplaceAllString(text, key) for every element of the entry
 	okApply := false
-	if outer.Key != nil && outer.Value != nil {
-		key, val := core.ObjOf(info, outer.Key), core.ObjOf(info, outer.Value)
+	var key, val types.Object
+	if overKeys {
+		key = core.ObjOf(info, outer.Value)
+		c10KeyListComplete(r, p, f, core.ObjOf(info, outer.X))
+	} else if outer.Key != nil && outer.Value != nil {
+		key, val = core.ObjOf(info, outer.Key), core.ObjOf(info, outer.Value)
+	}
+	if key != nil {
 		core.Walk(outer.Body, false, func(x ast.Node) bool {
 			in, ok := x.(*ast.RangeStmt)
-			if !ok || core.ObjOf(info, in.X) != val || in.Value == nil {
+			if !ok || in.Value == nil {
+				return true
+			}
+			if overKeys {
+				// for _, re := range table[key]
+				ie, isIdx := ast.Unparen(resolveLocal(info, f.Decl.Body, ast.Unparen(in.X))).(*ast.IndexExpr)
+				if !isIdx || core.ObjOf(info, ie.Index) != key {
+					return true
+				}
+				tv, isVar := core.ObjOf(info, ie.X).(*types.Var)
+				if !isVar || tv.Parent() != tv.Pkg().Scope() {
+					return true
+				}
+			} else if core.ObjOf(info, in.X) != val {
 				return true
 			}
 			re := core.ObjOf(info, in.Value)
@@ -295,6 +322,45 @@ func c10Sanitize(r *core.Run, p *core.Prog) {
 		})
 	}
 	r.Check(rule, "SanitizeUserInput:every-expression-of-every-entry-applied", p.Rel(outer.Pos()), okApply, "text = expr.ReplaceAllString(text, operator) for each expression of each table entry")
+}
+
+// c10KeyListComplete: when the table is applied in the order of a separate list of its keys, that list must name every
+// entry: it is filled in the loop that builds the table, with the key of the entry being built.
+func c10KeyListComplete(r *core.Run, p *core.Prog, f *core.Fn, list types.Object) {
+	const rule = "conversion-applied"
+	okList := false
+	for _, fn := range p.Funcs("pkg/goDB/conditions") {
+		info := fn.Info()
+		core.Walk(fn.Decl.Body, false, func(x ast.Node) bool {
+			rs, ok := x.(*ast.RangeStmt)
+			if !ok || rs.Key == nil {
+				return true
+			}
+			if _, isMap := info.TypeOf(rs.X).Underlying().(*types.Map); !isMap {
+				return true
+			}
+			k := core.ObjOf(info, rs.Key)
+			stores, appends := false, false
+			for _, st := range rs.Body.List {
+				a, ok := st.(*ast.AssignStmt)
+				if !ok || len(a.Lhs) != 1 || len(a.Rhs) != 1 {
+					continue
+				}
+				if ie, isIdx := ast.Unparen(a.Lhs[0]).(*ast.IndexExpr); isIdx && core.ObjOf(info, ie.Index) == k {
+					stores = true
+				}
+				if c, isCall := ast.Unparen(a.Rhs[0]).(*ast.CallExpr); isCall && core.CallName(info, c) == "builtin.append" && len(c.Args) == 2 &&
+					core.ObjOf(info, a.Lhs[0]) == list && core.ObjOf(info, c.Args[0]) == list && core.ObjOf(info, c.Args[1]) == k {
+					appends = true
+				}
+			}
+			if stores && appends {
+				okList = true
+			}
+			return true
+		})
+	}
+	r.Check(rule, "SanitizeUserInput:order-list-names-every-entry", p.Rel(f.Decl.Pos()), okList, "the list that fixes the order of the conversions must be filled, unconditionally, in the loop that builds the table, with the key of each entry: an entry missing from it is never applied")
 }
 
 func c10Parser(r *core.Run, p *core.Prog) {
